@@ -170,6 +170,11 @@ def run(ctx):
     if "DATA RACE" in out2:
         blk = out2.split("WARNING: DATA RACE")[1][:1500]
         ctx.problem("monitor", "race detector report in the free-running supervisor run", blk, concrete=True, replay={"report": blk}, key="data-race")
+    elif rc2 != 0 and re.search(r'^panic: ', out2, re.M):
+        line = re.search(r'^panic: .*', out2, re.M).group(0)
+        ctx.problem("monitor", "the free-running supervisor crashed the process: " + line[:300], out2[-1500:], concrete=True,
+                    replay={"how": "go test -race -run TestVerifC18Free ./pkg/supervisor (real New(), scripted services)", "panic": line, "output_tail": out2[-3000:]},
+                    key="instances:processor-panic-free-running")
     elif rc2 != 0 or not frows:
         ctx.problem("correspondence", "go harness C18 (free-running)", out2[-1500:])
     evh, distinct = {}, set()
